@@ -17,7 +17,8 @@ Record mstate := {
   m_evdropped : nat;           (* s.events.droppedCount *)
   m_links : list link;
   m_lkdropped : nat;
-  m_meta : N * N * N           (* spanKind, startTime, endTime (0 = wall clock / not ended) *)
+  m_meta : N * N * N;          (* spanKind, startTime, endTime (0 = wall clock / not ended) *)
+  m_exported : list export     (* what the span processors' OnEnd received, in order *)
 }.
 
 (** trace.ValidateSpanKind *)
@@ -28,7 +29,7 @@ Definition validate_kind (k : N) : N :=
 Definition init (so : start_opts) (name0 : bytes) : mstate :=
   {| m_ended := false; m_name := name0; m_status := (0, []); m_attrs := []; m_dropped := 0;
      m_events := []; m_evdropped := 0; m_links := []; m_lkdropped := 0;
-     m_meta := (validate_kind (so_kind so), so_start so, 0) |}.
+     m_meta := (validate_kind (so_kind so), so_start so, 0); m_exported := [] |}.
 
 (** *** truncateAttr *)
 Definition truncate_attr (limit : Z) (a : kv) : kv :=
@@ -111,7 +112,7 @@ Definition add_event (lim : limits) (s : mstate) (name : bytes) (ts : N) (attrs 
   let '(q, d) := eq_add (lim_events lim) (m_events s) (m_evdropped s) e in
   {| m_ended := m_ended s; m_name := m_name s; m_status := m_status s; m_attrs := m_attrs s;
      m_dropped := m_dropped s; m_events := q; m_evdropped := d;
-     m_links := m_links s; m_lkdropped := m_lkdropped s; m_meta := m_meta s |}.
+     m_links := m_links s; m_lkdropped := m_lkdropped s; m_meta := m_meta s; m_exported := m_exported s |}.
 
 Definition add_link (lim : limits) (s : mstate) (ctx : N) (ts : bool) (attrs : list kv) : mstate :=
   if (ctx =? 0) && (match attrs with [] => true | _ => false end) && negb ts then s
@@ -121,7 +122,7 @@ Definition add_link (lim : limits) (s : mstate) (ctx : N) (ts : bool) (attrs : l
     let '(q, d) := eq_add (lim_links lim) (m_links s) (m_lkdropped s) l in
     {| m_ended := m_ended s; m_name := m_name s; m_status := m_status s; m_attrs := m_attrs s;
        m_dropped := m_dropped s; m_events := m_events s; m_evdropped := m_evdropped s;
-       m_links := q; m_lkdropped := d; m_meta := m_meta s |}.
+       m_links := q; m_lkdropped := d; m_meta := m_meta s; m_exported := m_exported s |}.
 
 (** *** SetStatus *)
 Definition set_status (s : mstate) (code : N) (desc : bytes) : mstate :=
@@ -130,47 +131,7 @@ Definition set_status (s : mstate) (code : N) (desc : bytes) : mstate :=
     {| m_ended := m_ended s; m_name := m_name s;
        m_status := (code, if code =? 1 then desc else []);
        m_attrs := m_attrs s; m_dropped := m_dropped s; m_events := m_events s;
-       m_evdropped := m_evdropped s; m_links := m_links s; m_lkdropped := m_lkdropped s; m_meta := m_meta s |}.
-
-Definition set_ended (s : mstate) (ts : N) : mstate :=
-  {| m_ended := true; m_name := m_name s; m_status := m_status s; m_attrs := m_attrs s;
-     m_dropped := m_dropped s; m_events := m_events s; m_evdropped := m_evdropped s;
-     m_links := m_links s; m_lkdropped := m_lkdropped s;
-     m_meta := (fst (fst (m_meta s)), snd (fst (m_meta s)), ts) |}.
-
-(** One call on the span; every mutator starts with the isRecording guard. *)
-Definition step (lim : limits) (s : mstate) (o : op) : mstate :=
-  if m_ended s then s
-  else match o with
-       | OSetAttrs attrs =>
-           let '(l, d) := set_attributes lim attrs (m_attrs s) (m_dropped s) in
-           {| m_ended := m_ended s; m_name := m_name s; m_status := m_status s; m_attrs := l;
-              m_dropped := d; m_events := m_events s; m_evdropped := m_evdropped s;
-              m_links := m_links s; m_lkdropped := m_lkdropped s; m_meta := m_meta s |}
-       | OAddEvent name ts attrs => add_event lim s name ts attrs
-       | ORecordError typ msg ts attrs stack =>
-           (* opts ++ WithAttributes(type, message) ++ (if c.StackTrace() then WithAttributes(stacktrace)) *)
-           add_event lim s (str "exception") ts
-             (attrs ++ [(str "exception.type", VStr typ); (str "exception.message", VStr msg)] ++
-              (if stack then [stack_attr] else []))
-       | ORead =>
-           (* Attributes() on the live span de-duplicates s.attributes in place; Events()/Links() copy *)
-           {| m_ended := m_ended s; m_name := m_name s; m_status := m_status s; m_attrs := dedupe (m_attrs s);
-              m_dropped := m_dropped s; m_events := m_events s; m_evdropped := m_evdropped s;
-              m_links := m_links s; m_lkdropped := m_lkdropped s; m_meta := m_meta s |}
-       | OAddLink ctx ts attrs => add_link lim s ctx ts attrs
-       | OSetStatus code desc => set_status s code desc
-       | OSetName name =>
-           {| m_ended := m_ended s; m_name := name; m_status := m_status s; m_attrs := m_attrs s;
-              m_dropped := m_dropped s; m_events := m_events s; m_evdropped := m_evdropped s;
-              m_links := m_links s; m_lkdropped := m_lkdropped s; m_meta := m_meta s |}
-       | OEnd ts => set_ended s ts
-       end.
-
-(** newRecordingSpan applies the start links through AddLink and the start
-    attributes through SetAttributes ([start_ops]), then the program runs. *)
-Definition run_model (lim : limits) (so : start_opts) (name0 : bytes) (ops : list op) : mstate :=
-  fold_left (step lim) (start_ops so ++ ops) (init so name0).
+       m_evdropped := m_evdropped s; m_links := m_links s; m_lkdropped := m_lkdropped s; m_meta := m_meta s; m_exported := m_exported s |}.
 
 (** The span read back through its ReadOnlySpan accessors (Attributes()
     de-duplicates; the Dropped* accessors return the counters). *)
@@ -205,3 +166,58 @@ Definition snapshot_before_fix (s : mstate) : export :=
      x_links := m_links s;
      x_lkdropped := match m_links s with [] => 0%nat | _ => m_lkdropped s end;
      x_kind := fst (fst (m_meta s)); x_start := snd (fst (m_meta s)); x_end := snd (m_meta s) |}.
+
+Definition mark_ended (s : mstate) (ts : N) : mstate :=
+  {| m_ended := true; m_name := m_name s; m_status := m_status s; m_attrs := m_attrs s;
+     m_dropped := m_dropped s; m_events := m_events s; m_evdropped := m_evdropped s;
+     m_links := m_links s; m_lkdropped := m_lkdropped s;
+     m_meta := (fst (fst (m_meta s)), snd (fst (m_meta s)), ts); m_exported := m_exported s |}.
+
+(** End: store the end time (which marks the span ended), then take the
+    snapshot and hand it to the span processors' OnEnd. *)
+Definition set_ended (s : mstate) (ts : N) : mstate :=
+  let s' := mark_ended s ts in
+  {| m_ended := m_ended s'; m_name := m_name s'; m_status := m_status s'; m_attrs := m_attrs s';
+     m_dropped := m_dropped s'; m_events := m_events s'; m_evdropped := m_evdropped s';
+     m_links := m_links s'; m_lkdropped := m_lkdropped s'; m_meta := m_meta s';
+     m_exported := m_exported s' ++ [snapshot s'] |}.
+
+(** One call on the span; every mutator starts with the isRecording guard. *)
+Definition step (lim : limits) (s : mstate) (o : op) : mstate :=
+  if m_ended s then s
+  else match o with
+       | OSetAttrs attrs =>
+           let '(l, d) := set_attributes lim attrs (m_attrs s) (m_dropped s) in
+           {| m_ended := m_ended s; m_name := m_name s; m_status := m_status s; m_attrs := l;
+              m_dropped := d; m_events := m_events s; m_evdropped := m_evdropped s;
+              m_links := m_links s; m_lkdropped := m_lkdropped s; m_meta := m_meta s; m_exported := m_exported s |}
+       | OAddEvent name ts attrs => add_event lim s name ts attrs
+       | ORecordError typ msg ts attrs stack =>
+           (* opts ++ WithAttributes(type, message) ++ (if c.StackTrace() then WithAttributes(stacktrace)) *)
+           add_event lim s (str "exception") ts
+             (attrs ++ [(str "exception.type", VStr typ); (str "exception.message", VStr msg)] ++
+              (if stack then [stack_attr] else []))
+       | ORead =>
+           (* Attributes() on the live span de-duplicates s.attributes in place; Events()/Links() copy *)
+           {| m_ended := m_ended s; m_name := m_name s; m_status := m_status s; m_attrs := dedupe (m_attrs s);
+              m_dropped := m_dropped s; m_events := m_events s; m_evdropped := m_evdropped s;
+              m_links := m_links s; m_lkdropped := m_lkdropped s; m_meta := m_meta s; m_exported := m_exported s |}
+       | OAddLink ctx ts attrs => add_link lim s ctx ts attrs
+       | OSetStatus code desc => set_status s code desc
+       | OSetName name =>
+           {| m_ended := m_ended s; m_name := name; m_status := m_status s; m_attrs := m_attrs s;
+              m_dropped := m_dropped s; m_events := m_events s; m_evdropped := m_evdropped s;
+              m_links := m_links s; m_lkdropped := m_lkdropped s; m_meta := m_meta s; m_exported := m_exported s |}
+       | OEnd ts => set_ended s ts
+       | OEndPanic typ msg stack ts =>
+           (* recover() != nil: addEvent(exception, type, message [, stacktrace]) at the wall-clock time, then end *)
+           set_ended (add_event lim s (str "exception") 0
+                        ([] ++ [(str "exception.type", VStr typ); (str "exception.message", VStr msg)] ++
+                         (if stack then [stack_attr] else []))) ts
+       end.
+
+(** newRecordingSpan applies the start links through AddLink and the start
+    attributes through SetAttributes ([start_ops]), then the program runs. *)
+Definition run_model (lim : limits) (so : start_opts) (name0 : bytes) (ops : list op) : mstate :=
+  fold_left (step lim) (start_ops so ++ ops) (init so name0).
+
